@@ -501,6 +501,74 @@ impl<'a> VisitMut for HofPass<'a> {
     }
 }
 
+// ------------------------------------------------------------------ R-MAC
+
+fn subst_macro(body: TokenStream, var: &str, arg: &TokenStream) -> TokenStream {
+    let toks: Vec<TokenTree> = body.into_iter().collect();
+    let mut out = TokenStream::new();
+    let mut i = 0;
+    while i < toks.len() {
+        match &toks[i] {
+            TokenTree::Punct(p) if p.as_char() == '$' && i + 1 < toks.len() && toks[i + 1].to_string() == var => {
+                let g = proc_macro2::Group::new(Delimiter::Parenthesis, arg.clone());
+                out.extend(std::iter::once(TokenTree::Group(g)));
+                i += 2;
+            }
+            TokenTree::Group(g) => {
+                let inner = subst_macro(g.stream(), var, arg);
+                let mut ng = proc_macro2::Group::new(g.delimiter(), inner);
+                ng.set_span(g.span());
+                out.extend(std::iter::once(TokenTree::Group(ng)));
+                i += 1;
+            }
+            t => {
+                out.extend(std::iter::once(t.clone()));
+                i += 1;
+            }
+        }
+    }
+    out
+}
+
+struct MacPass<'a> {
+    macros: &'a [(String, String, TokenStream)],
+    log: &'a mut Vec<String>,
+}
+impl<'a> MacPass<'a> {
+    fn expand(&mut self, m: &syn::Macro) -> Option<Expr> {
+        let name = mac_name(m);
+        for (n, var, body) in self.macros {
+            if *n == name {
+                let ts = subst_macro(body.clone(), var, &m.tokens);
+                let e: Expr = syn::parse2(ts).unwrap_or_else(|_| die(&format!("R-MAC: expansion of {name}! is not an expression")));
+                self.log.push(format!("R-MAC {name}!(..) expanded by its definition"));
+                return Some(e);
+            }
+        }
+        None
+    }
+}
+impl<'a> VisitMut for MacPass<'a> {
+    fn visit_block_mut(&mut self, b: &mut syn::Block) {
+        for s in b.stmts.iter_mut() {
+            if let Stmt::Macro(sm) = s {
+                if let Some(e) = self.expand(&sm.mac) {
+                    *s = Stmt::Expr(e, sm.semi_token);
+                }
+            }
+        }
+        visit_mut::visit_block_mut(self, b);
+    }
+    fn visit_expr_mut(&mut self, e: &mut Expr) {
+        if let Expr::Macro(m) = e {
+            if let Some(n) = self.expand(&m.mac) {
+                *e = n;
+            }
+        }
+        visit_mut::visit_expr_mut(self, e);
+    }
+}
+
 // ------------------------------------------------------------------ R-PATH
 
 struct PathPass<'a> {
@@ -806,6 +874,7 @@ struct Unit {
     paths: Vec<(Vec<String>, Vec<String>)>,
     world_pats: Vec<String>,
     broadcast: String,
+    macros: Vec<(String, String, TokenStream)>,
     files: BTreeMap<String, (String, syn::File)>,
     out: String,
     report: Vec<String>,
@@ -954,6 +1023,10 @@ impl Unit {
         ap.visit_signature_mut(&mut sig);
         if ap.dropped > 0 {
             log.push(format!("R-ATTR dropped {} attribute(s)", ap.dropped));
+        }
+        // R-MAC
+        if !self.macros.is_empty() {
+            MacPass { macros: &self.macros, log: &mut log }.visit_block_mut(&mut block);
         }
         // R-LOG / R-DBG
         LogDbgPass { log: &mut log, effect_names: &effect_names }.visit_block_mut(&mut block);
@@ -1264,11 +1337,15 @@ impl Unit {
 
         self.n_extracted += 1;
         self.report.push(format!(
-            "{{\"kind\":\"fn\",\"file\":{},\"impl\":{},\"fn\":{},\"emitted_as\":{},\"props\":{},\"src_lines\":[{},{}],\"gen_lines\":[{},{}],\"src_text\":{},\"rules\":{},\"tokens_src\":{},\"tokens_deleted\":{},\"tokens_inserted\":{},\"deleted\":{},\"inserted\":{},\"loops\":{},\"world\":{},\"spec_only\":{},\"contract_file\":{}}}",
+            "{{\"kind\":\"fn\",\"file\":{},\"impl\":{},\"fn\":{},\"emitted_as\":{},\"qual\":{},\"props\":{},\"src_lines\":[{},{}],\"gen_lines\":[{},{}],\"src_text\":{},\"rules\":{},\"tokens_src\":{},\"tokens_deleted\":{},\"tokens_inserted\":{},\"deleted\":{},\"inserted\":{},\"loops\":{},\"world\":{},\"spec_only\":{},\"as_trait\":{},\"contract_file\":{}}}",
             jstr(&spec.file),
             jstr(spec.impl_key.as_deref().unwrap_or("")),
             jstr(&spec.name),
             jstr(spec.rename.as_deref().unwrap_or(&spec.name)),
+            jstr(&match &found.impl_header {
+                Some((_, _, ty)) => format!("{}::{}", tok(ty), spec.rename.as_deref().unwrap_or(&spec.name)),
+                None => spec.rename.clone().unwrap_or(spec.name.clone()),
+            }),
             jlist(&spec.props),
             found.start_line,
             found.end_line,
@@ -1284,6 +1361,7 @@ impl Unit {
             n_loops,
             spec.world,
             spec.spec_only,
+            spec.as_trait,
             jstr(spec.contract_file.as_deref().unwrap_or(""))
         ));
     }
@@ -1477,6 +1555,30 @@ impl Unit {
         die(&format!("lost anchor: const {name} not found in {file}"));
     }
 
+    /// R-MAC: a single-rule `macro_rules! name { ($x:expr) => { BODY }; }` is expanded by substitution
+    fn register_macro(&mut self, file: &str, name: &str) {
+        let (_, f) = self.load(file).clone();
+        for item in &f.items {
+            if let Item::Macro(m) = item {
+                if m.ident.as_ref().map(|i| i == name).unwrap_or(false) {
+                    let toks: Vec<TokenTree> = m.mac.tokens.clone().into_iter().collect();
+                    // ( $ x : expr ) => { body } [;]
+                    if toks.len() >= 4 {
+                        if let (TokenTree::Group(pat), TokenTree::Group(body)) = (&toks[0], &toks[3]) {
+                            let p: Vec<TokenTree> = pat.stream().into_iter().collect();
+                            if p.len() == 4 && p[0].to_string() == "$" && p[2].to_string() == ":" && p[3].to_string() == "expr" && toks.len() <= 5 {
+                                self.macros.push((name.to_string(), p[1].to_string(), body.stream()));
+                                return;
+                            }
+                        }
+                    }
+                    die(&format!("unsupported construct: macro {name} is not a single `($x:expr) => {{..}}` rule"));
+                }
+            }
+        }
+        die(&format!("lost anchor: macro {name} not found in {file}"));
+    }
+
     fn extract_macro(&mut self, file: &str, name: &str) {
         let (_, f) = self.load(file).clone();
         for item in &f.items {
@@ -1514,6 +1616,13 @@ impl Unit {
                         let _ = writeln!(self.out, "// ==== include {} ====", rest);
                         self.process(&p, depth + 1);
                         let _ = writeln!(self.out, "// ==== end include {} ====", rest);
+                    }
+                    "expand-macro" => {
+                        let parts: Vec<&str> = rest.split(" :: ").collect();
+                        if parts.len() != 2 {
+                            die("bad //@expand-macro");
+                        }
+                        self.register_macro(parts[0].trim(), parts[1].trim());
                     }
                     "broadcast" => {
                         self.broadcast = rest.to_string();
@@ -1703,6 +1812,7 @@ fn main() {
         paths: vec![],
         world_pats: vec![],
         broadcast: String::new(),
+        macros: vec![],
         files: BTreeMap::new(),
         out: String::new(),
         report: vec![],
